@@ -115,7 +115,7 @@ func (w *world) stepStream(arg int) {
 		}
 		return
 	}
-	w.obs(opW, "device", dev.Bytes())
+	w.obsRand(opW, "device", dev.Bytes())
 	if point == 0 {
 		w.mutateNow(aadB, opW, "stream-aad-flipped-before-first-write")
 	}
@@ -132,7 +132,7 @@ func (w *world) stepStream(arg int) {
 		}()
 		w.done(op)
 		w.obsS(op, "n err", fmt.Sprint(n, errClass(err)))
-		w.obs(op, "device", dev.Bytes())
+		w.obsRand(op, "device", dev.Bytes())
 		w.setAdd("ops", op)
 		if err != nil {
 			if !w.faulted && !p.lenient {
@@ -149,7 +149,7 @@ func (w *world) stepStream(arg int) {
 		err = wr.Close()
 	}()
 	w.obsErr(opW+".Close", "err", err)
-	w.obs(opW+".Close", "device", dev.Bytes())
+	w.obsRand(opW+".Close", "device", dev.Bytes())
 	w.setAdd("ops", opW+".Close")
 	if err != nil {
 		if !w.faulted && !p.lenient {
